@@ -26,10 +26,16 @@ Definition is_internal (x : value) : bool :=
 Definition z_to_string (z : Z) : string := NilEmpty.string_of_int (Z.to_int z).
 Definition all_digits (s : string) : bool :=
   forallb (fun c => let n := nat_of_ascii c in Nat.leb 48 n && Nat.leb n 57) (list_ascii_of_string s).
-Definition z_of_string (s : string) : option Z :=
+Definition nat_of_digits (s : string) : option Z :=
   if all_digits s && negb (String.eqb s "")
   then match NilEmpty.uint_of_string s with Some u => Some (Z.of_uint u) | None => None end
   else None.
+(** a literal may carry a sign (the generator never produces one today; both evaluators read it the same way) *)
+Definition z_of_string (s : string) : option Z :=
+  match s with
+  | String "-"%char r => match nat_of_digits r with Some z => Some (Z.opp z) | None => None end
+  | _ => nat_of_digits s
+  end.
 
 (** ** Ranges: the elements of [range(a, b, s)] *)
 Definition range_len (a b s : Z) : Z :=
